@@ -433,7 +433,13 @@ class Responder():
                     self.evented = True
 
         self.started = True
-        return self.write
+
+        def write(msg):
+            """WSGI write callable handed to the app: an empty msg is not the end of the body"""
+            if msg:
+                self.write(msg)
+
+        return write
 
 
     def service(self):
